@@ -513,8 +513,18 @@ def initEpochSecs (secs : Int) (ms : Nat) : DateTime := mkDateTime secs ms false
 def asMillis (dt : DateTime) : Nat :=
   ((convert (toU64 dt.timestamp) Gen.Date.asMillisSecs).1 + dt.millis) % u64
 
-def asNanos (dt : DateTime) : Nat :=
+/-- `aws_date_time_as_nanos` as first found: the two (saturating) conversions added with a plain `+`, which
+wraps.  Kept as the record of the defect (`c19_nanos_plain_add_wraps`); the current body is `asNanos`. -/
+def asNanosPlainAdd (dt : DateTime) : Nat :=
   ((convert (toU64 dt.timestamp) Gen.Date.asNanosSecs).1 + (convert dt.millis Gen.Date.asNanosMillis).1) % u64
+
+/-- `aws_date_time_as_nanos`: `aws_add_u64_saturating(convert(secs → ns), convert(ms → ns))`; which of the two
+additions the source has now is generated (`Gen.Date.asNanosSaturatingAdd`) -/
+def asNanos (dt : DateTime) : Nat :=
+  if Gen.Date.asNanosSaturatingAdd then
+    Gen.Math.Overflow.aws_add_u64_saturating (convert (toU64 dt.timestamp) Gen.Date.asNanosSecs).1
+      (convert dt.millis Gen.Date.asNanosMillis).1
+  else asNanosPlainAdd dt
 
 /-! ### accessors (UTC), with the C result types -/
 
